@@ -54,8 +54,9 @@ Qed.
 
 Lemma installed_core_ok kind tnow c cns s :
   installed tnow c cns s -> cs_type cns = type_of c -> typed_clean c s ->
-  (Nat.eqb kind 1 || only_installed c s) = true ->
+  (Nat.eqb kind 1 || only_installed c s) = true -> forall (ra : bool), ra = true ->
   (if ctype_eqb (cs_type cns) (type_of c) then [] else [19%nat]) ++
+  (if ra then [] else [24%nat]) ++
   (if has_key KClient (VClient c) s &&
       (if ctype_eqb (type_of c) TSS then match sget (KCons (0, 0)) s with None => true | Some _ => false end
        else has_key (KCons (latest_of c)) (VCons cns) s)
@@ -63,7 +64,7 @@ Lemma installed_core_ok kind tnow c cns s :
   (if metadata_ok tnow c s then [] else [16%nat]) ++
   (if (Nat.eqb kind 1 || only_installed c s) && cons_all_of_type (type_of c) s then [] else [17%nat]) = [].
 Proof.
-  intros (Hc & Hk & Hm) T (A & _ & D) O.
+  intros (Hc & Hk & Hm) T (A & _ & D) O ra ->.
   rewrite T, ctype_eqb_refl, (has_key_of _ _ _ Hc), (metadata_ok_of _ _ _ Hm), O, (cons_all_of_type_of _ _ A). cbn.
   destruct (ctype_eqb_spec (type_of c) TSS) as [Ts|_].
   - rewrite (D Ts). reflexivity.
@@ -77,15 +78,17 @@ Section Sound.
   Hypothesis F3 : f_cons_type_check cf = true.
   Hypothesis F4 : f_upgrade_tss_nocons cf = true.
   Hypothesis F5 : f_tm_upgrade_meta cf = true.
+  Hypothesis F6 : f_eth_root_check cf = true.
 
   Lemma monitor_create_sound st p st' :
     wf_state st -> exec cf st (Create p) = Ok st' ->
     (valid_name (p_name p) && negb (has_client st (p_name p))) = true /\ mon_installed_core 0 p st' = [].
   Proof.
-    intros W E. apply create_spec in E; try assumption. destruct E as (Hn & _ & Hc & T & I & ->).
+    intros W E. pose proof (exec_roots_agree _ _ _ _ E) as R. cbn in R. rewrite (roots_agree_head _ _ F6) in R.
+    apply create_spec in E; try assumption. destruct E as (Hn & _ & Hc & T & I & ->).
     split; [rewrite Hn, Hc; reflexivity|].
     unfold mon_installed_core. rewrite store_of_with_same, now_with.
-    apply installed_core_ok; [apply fresh_store_installed, I | exact T | apply fresh_store_clean, T |].
+    apply installed_core_ok; [apply fresh_store_installed, I | exact T | apply fresh_store_clean, T | | exact R].
     rewrite only_installed_fresh. reflexivity.
   Qed.
 
@@ -94,11 +97,12 @@ Section Sound.
     (exists old, sget KClient (store_of st (p_name p)) = Some (VClient old) /\ ctype_eqb (type_of old) (type_of (p_client p)) = false) /\
     mon_installed_core 2 p st' = [].
   Proof.
-    intros E. apply toggle_spec in E; try assumption. destruct E as (old & Ho & Nt & _ & _ & T & I & ->).
+    intros E. pose proof (exec_roots_agree _ _ _ _ E) as R. cbn in R. rewrite (roots_agree_head _ _ F6) in R.
+    apply toggle_spec in E; try assumption. destruct E as (old & Ho & Nt & _ & _ & T & I & ->).
     split.
     - exists old. split; [exact Ho|]. destruct (ctype_eqb_spec (type_of old) (type_of (p_client p))); [contradiction | reflexivity].
     - unfold mon_installed_core. rewrite store_of_with_same, now_with.
-      apply installed_core_ok; [apply fresh_store_installed, I | exact T | apply fresh_store_clean, T |].
+      apply installed_core_ok; [apply fresh_store_installed, I | exact T | apply fresh_store_clean, T | | exact R].
       rewrite only_installed_fresh. reflexivity.
   Qed.
 
@@ -107,12 +111,13 @@ Section Sound.
     (exists old, sget KClient (store_of st (p_name p)) = Some (VClient old) /\ ctype_eqb (type_of old) (type_of (p_client p)) = true) /\
     mon_installed_core 1 p st' = [].
   Proof.
-    intros Cl E. pose proof E as E0. apply upgrade_spec in E; try assumption.
+    intros Cl E. pose proof E as E0. pose proof (exec_roots_agree _ _ _ _ E) as R. cbn in R. rewrite (roots_agree_head _ _ F6) in R.
+    apply upgrade_spec in E; try assumption.
     destruct E as (old & s' & Ho & Te & _ & _ & T & -> & I).
     split; [exists old; split; [exact Ho | rewrite Te; apply ctype_eqb_refl]|].
     unfold mon_installed_core. rewrite store_of_with_same, now_with.
-    apply installed_core_ok; [exact I | exact T | | reflexivity].
-    unfold exec in E0. destruct (negb _); [discriminate|]. destruct (negb _); [discriminate|].
+    apply installed_core_ok; [exact I | exact T | | reflexivity | exact R].
+    unfold exec in E0. destruct (negb _); [discriminate|]. destruct (negb _); [discriminate|]. destruct (negb _); [discriminate|].
     destruct (upgrade_client cf (now st) (p_client p) (p_cons p) (store_of st (p_name p))) as [s2| |] eqn:U; cbn in E0; try discriminate.
     assert (E1 : with_store st (p_name p) s2 = with_store st (p_name p) s') by congruence.
     assert (s2 = s') as ->.
